@@ -128,6 +128,9 @@ def oracle_rt(codec, before, outcome, extras):
     flag = ex.get("equal", ex.get("equals"))
     if flag is not None and (flag == "true") != expected_flag(codec, b):
         return f"the type's own equality answered {flag}, expected {expected_flag(codec, b)}"
+    if ex.get("recvindep", "true") != "true":
+        return (f"decoding a group file depends on what the receiving value held before ({ex.get('recvindep')}): what is reloaded is not what was written, "
+                "and an unknown scheme is not rejected")
     if ex.get("sameenc", "true") != "true":
         return (f"the JSON encoding of the same value depends on how it is handed to the encoder: the {ex.get('sameenc')} encoding differs from the "
                 "pointer encoding (what is then decoded is not what was written)")
